@@ -21,7 +21,8 @@
 EXTENDS CoreExpr, TLC, Json
 
 CONSTANTS Family, MaxRows, Live,
-          DevLimiterNoComplete, DevPopOldest, DevTruncAll, DevSwallowBreak, DevSplitLast
+          DevLimiterNoComplete, DevPopOldest, DevTruncAll, DevSwallowBreak, DevSplitLast, DevSortBreakStops, DevSortEmptyNoComplete,
+          DevSpaceCountsKeyless
 
 P == INSTANCE Pipeline WITH Ev <- CoreEv
 
@@ -78,7 +79,7 @@ SplitCfgs == {[BaseCfg EXCEPT !.split = sp, !.onlyObj = o, !.filter = f, !.selec
                 sp \in {Field(nItems), Self}, o \in BOOLEAN, f \in {NoE, Field(nF)},
                 s \in {<<>>, <<[name |-> nA, e |-> Field(nK1)], [name |-> nB, e |-> UpField(nG)]>>},
                 sk \in 0..1, tk \in {-1, 0, 1, 2}, u \in BOOLEAN}
-SplitRows(id) == {Row(<<<<nG, S(<<97>>)>>, <<nItems, it>>>>) : it \in {Nothing, Arr(<<>>), Arr(<<El(0)>>), Arr(<<El(1), El(0)>>), Arr(<<El(1), El(1)>>), I(3)}}
+SplitRows(id) == {Row(<<<<nG, S(<<97>>)>>, <<nItems, it>>>>) : it \in {Nothing, Arr(<<>>), Arr(<<El(0)>>), Arr(<<El(1), El(0)>>), Arr(<<El(1), El(1)>>), Arr(<<I(9), El(1)>>), I(3)}}
                  \cup {Arr(<<El(1), El(1)>>), I(4), Arr(<<>>)}
 
 Cfgs == CASE Family = "sort" -> SortCfgs [] Family = "group" -> GroupCfgs [] Family = "uniq" -> UniqCfgs [] Family = "split" -> SplitCfgs
